@@ -137,6 +137,9 @@ pub fn eval(ctx: &Ctx, case: &Case) {
 }
 
 pub fn replay(ctx: &Arc<Ctx>, v: &Value) {
+    if crate::cold::replay(ctx, v) {
+        return;
+    }
     let c: Case = serde_json::from_value(v.clone()).expect("C16 case");
     eval(ctx, &c);
 }
@@ -258,4 +261,5 @@ pub fn run(ctx: &Arc<Ctx>) {
         ctx.cov("related_input_sequences", json!(seqs.len()));
         run_sequences(ctx, &seqs, eval);
     }
+    crate::cold::check(ctx, "C16");
 }
